@@ -35,6 +35,8 @@ pub fn serve() {
                 float_bits(r)
             },
             "fts" => hex(f(p[1]).to_string()),
+            "fdbg" => hex(format!("{:?}", f(p[1]))),
+            "sdbg" => hex(format!("{:?}", unhex(p.get(1).copied().unwrap_or("")))),
             "lower" => hex(unhex(p.get(1).copied().unwrap_or("")).to_lowercase()),
             "upper" => hex(unhex(p.get(1).copied().unwrap_or("")).to_uppercase()),
             "parsef" => match unhex(p.get(1).copied().unwrap_or("")).parse::<f64>() {
